@@ -153,7 +153,7 @@ def run_case(case):
     the trace of case["which"]."""
     import clikit.ui.components.progress_bar as pbmod
 
-    base = case["pair"][0] if "pair" in case else case
+    base = case["pair"][0] if "pair" in case else case["trio"][0] if "trio" in case else case
     old_cols = os.environ.get("COLUMNS")
     old_time = pbmod.time
     os.environ["COLUMNS"] = str(base["cfg"]["w"])
@@ -162,6 +162,8 @@ def run_case(case):
     try:
         if "pair" in case:
             return run_pair(case, clock)[case["which"]]
+        if "trio" in case:
+            return run_trio(case, clock)
         r = Runner(case, clock)
         for op in case["ops"]:
             clock.ticks += op.get("dt", 0)
@@ -188,6 +190,50 @@ def run_pair(case, clock):
     return [rs[0].trace, rs[1].trace]
 
 
+def run_trio(case, clock):
+    """several bars, each on its own section of ONE ANSI output, their calls interleaved -> one trace for
+    ProgressBarsTrace (events carry the bar called; the sections are created in the order of the bars)"""
+    from clikit.api.io import Output
+    from clikit.formatter import AnsiFormatter
+
+    bars = case["trio"]
+    w = bars[0]["cfg"]["w"]
+    ev = {"op": "init", "b": 0, "frames": [], "ops": [], "exc": "", "n": len(bars), "w": w, "pre": [list(p) for p in case["pre"]]}
+    trace = [ev]
+    try:
+        stream = _recording_stream(case.get("how") == "stream")
+        out = Output(stream, AnsiFormatter() if case.get("how") == "stream" else AnsiFormatter(forced=True))
+        for p in case["pre"]:
+            stream.write("".join(p) + "\n")
+        ev["ops"] = termbytes.ops(stream.fetch())
+        from clikit.api.io import flags as F
+
+        rs = []
+        for c in bars:
+            sec = out.section()
+            verb = {"verbose": F.VERBOSE, "very_verbose": F.VERY_VERBOSE, "debug": F.DEBUG}.get(c["cfg"]["fmt"])
+            if verb is not None:
+                sec.set_verbosity(verb)
+            rs.append(Runner(c, clock, (stream, sec)))
+    except Exception as e:  # noqa
+        ev["exc"] = type(e).__name__
+        return trace
+    pos = [0] * len(bars)
+    order = list(case["order"]) + [k for k, c in enumerate(bars) for _ in c["ops"]]
+    for who in order:
+        ops = bars[who]["ops"]
+        if pos[who] < len(ops):
+            clock.ticks += ops[pos[who]].get("dt", 0)
+            n = len(rs[who].trace)
+            rs[who].step(ops[pos[who]])
+            pos[who] += 1
+            if len(rs[who].trace) > n:
+                e = rs[who].trace[-1]
+                trace.append({"op": e["op"], "b": who + 1, "frames": e["frames"], "ops": e["ops"], "exc": e["exc"],
+                              "n": 0, "w": 0, "pre": []})
+    return trace
+
+
 class _Dead(object):
     chunks = ()
 
@@ -199,7 +245,7 @@ class Runner(object):
     """one progress bar on one output; step() performs one call and appends the event with its observations.
     The event's dt is the time since this bar's previous call (other bars may have been called in between)."""
 
-    def __init__(self, case, clock):
+    def __init__(self, case, clock, built=None):
         from clikit.ui.components import ProgressBar
 
         self.case, self.clock = case, clock
@@ -214,8 +260,22 @@ class Runner(object):
               "maxsteps": max(0, cfg["max0"]), "msg": list(visible(self.msg)), "cfg": cfg, "conf": self.conf}
         self.stream, self.bar = _Dead(), None
         try:
-            self.stream, target = build(cfg, case.get("via", "output"), case.get("how"))
-            ev["ops"] = termbytes.ops(self.stream.fetch())
+            self.own = None
+            if built is not None:  # several bars on the sections of one output: stream and section are given
+                self.stream, target = built
+                # the section re-prints the frames of the bars below it: what THIS bar wrote is taken where it hands
+                # it to its section
+                self.own = []
+                inner = target.write
+
+                def write(string, *a, **kw):
+                    self.own.append(target.remove_format(string))
+                    return inner(string, *a, **kw)
+
+                target.write = write
+            else:
+                self.stream, target = build(cfg, case.get("via", "output"), case.get("how"))
+                ev["ops"] = termbytes.ops(self.stream.fetch())
             secs = None if cfg["mingap"] == 103 else cfg["mingap"] / TICKS_PER_S  # 103 ticks: the default 0.1 s
             by_setter = case.get("mingap_by") == "setter" and cfg["mingap"] > 0
             if case.get("ctor") == "kw":  # equivalent spellings of the constructor call
@@ -313,14 +373,17 @@ class Runner(object):
             ev["exc"] = type(e).__name__
         pats = frame_patterns(self.conf["fmt"])
         ev["ops"] = termbytes.ops(stream.fetch()[mark:])
-        for chunk in stream.chunks[nchunks:]:  # one write = one frame ...
+        written = stream.chunks[nchunks:]
+        if self.own is not None:
+            written, self.own[:] = [c + "\n" for c in self.own], []
+        for chunk in written:  # one write = one frame ...
             text = _ESC.sub("", chunk)
             if cfg["mode"] == "section" and text.endswith("\n"):
                 text = text[:-1]  # a section output terminates what it writes
             if text.strip(" \n"):
                 ev["frames"].append(project_frame(text, pats))
         if not all(f["ok"] for f in ev["frames"]):  # ... unless the call put one frame on the stream in pieces
-            whole = project_frame(_ESC.sub("", "".join(stream.chunks[nchunks:])).strip("\n"), pats)
+            whole = project_frame(_ESC.sub("", "".join(written)).strip("\n"), pats)
             if whole["ok"]:
                 ev["frames"] = [whole]
         try:
@@ -403,8 +466,11 @@ def random_case(rng, maxlen=60):
     mode = rng.choice(["ansi", "ansi", "ansi", "plain", "plain", "section", "section", "quiet"])
     fmt = rng.choice(["normal", "normal", "normal", "msg", "msg", "two", "verbose", "very_verbose", "debug"])
     max0 = rng.choice([0, 1, 3, 10, 50, 200, -1])
-    cfg = {"mode": mode, "bw": rng.choice([1, 2, 4, 10, 28, 40, rng.randint(1, 40)]), "mingap": rng.choice([0, 0, 103, 103, 128, 512]),
-           "maxgap": rng.choice([1024, 1024, 1024, 2048]), "freq": rng.choice([1, 1, 2, 5]), "fmt": fmt,
+    # (minimum, maximum) interval in ticks; the last three: a minimum LONGER than the maximum (the throttle must win)
+    mingap, maxgap = rng.choice([(0, 1024), (0, 1024), (0, 2048), (103, 1024), (103, 1024), (128, 1024), (512, 1024),
+                                 (512, 2048), (2048, 1024), (103, 51), (128, 64)])
+    cfg = {"mode": mode, "bw": rng.choice([1, 2, 4, 10, 28, 40, rng.randint(1, 40)]), "mingap": mingap,
+           "maxgap": maxgap, "freq": rng.choice([1, 1, 2, 5]), "fmt": fmt,
            "chars": rng.choice(CHARSETS), "w": 200,
            "pre": [] if fmt == "two" else [list(rng.choice(["##", "# #"])) for _ in range(rng.choice([0, 1, 1, 2]))], "max0": max0}
     case = {"cfg": cfg, "ops": [], "msg0": rng.choice(MESSAGES),
@@ -451,6 +517,21 @@ def random_case(rng, maxlen=60):
         op["dt"] = dt
         case["ops"].append(op)
     return case
+
+
+def random_trio(rng):
+    """three (sometimes four) bars on as many sections of one ANSI output"""
+    bars = []
+    for _ in range(rng.choice([3, 3, 3, 4])):
+        c = random_case(rng, 14)
+        while c["cfg"]["fmt"] not in ("normal", "msg", "verbose"):
+            c = random_case(rng, 14)
+        c["cfg"].update(mode="section", w=200, pre=[])
+        c["via"] = "output"
+        bars.append(c)
+    n = sum(len(c["ops"]) for c in bars)
+    return {"trio": bars, "pre": [list(rng.choice(["##", "# #"])) for _ in range(rng.choice([0, 1, 2]))],
+            "how": rng.choice(["forced", "stream"]), "order": [rng.randrange(len(bars)) for _ in range(n)]}
 
 
 def random_pair(rng):
@@ -603,6 +684,19 @@ def run(ctx):
             ctx.nontriv(("p", t, which))
     ctx.validate(SPEC, "ProgressBarTrace", "ProgressBarTrace.cfg", traces, cases=cases, name="recorded-sequences")
 
+    trios, tcases = [], []
+    for t in range(80 if quick else 1000):  # three or four bars alive on the sections of one output
+        tc = random_trio(ctx.rng)
+        tr = run_case(tc)
+        for ev in tr:
+            if termbytes.unknown(ev["ops"]):
+                raise T.MachineryError("the stream contains terminal codes the Terminal model does not know")
+        trios.append(tr)
+        tcases.append(tc)
+        ctx.count()
+        ctx.nontriv(("t", t))
+    ctx.validate(SPEC, "ProgressBarsTrace", "ProgressBarsTrace.cfg", trios, cases=tcases, name="several bars on one output")
+
     # extension beyond the listed property (A-clauses only): time texts, placeholder family, redraw frequency, messages
     # with a line break
     from harness.props import ext_bar
@@ -618,5 +712,8 @@ def replay(ctx, path):
     ctx.nontriv(2)
     ctx.sample(c)
     tr = run_case(c)
+    if "trio" in c:
+        ctx.validate(SPEC, "ProgressBarsTrace", "ProgressBarsTrace.cfg", [tr], cases=[c], name="replay")
+        return
     check_known(tr, (c["pair"][c["which"]] if "pair" in c else c)["cfg"])
     ctx.validate(SPEC, "ProgressBarTrace", "ProgressBarTrace.cfg", [tr], cases=[c], name="replay")
